@@ -165,6 +165,19 @@ def run(ctx: Ctx) -> None:
                 ctx.finding("S5", f"{q}({p}) | {s.qual} | {s.text[:90]}", repo.loc(s.qual.split(".")[0], s.node), f"argument {p} of {q} can be mutated here ({s.kind}); path guards: {[str(g) for g in s.guards] or 'none'}")
             if not bad:
                 ctx.ok("S5", f"{q}({p})", repo.loc(q.split(".")[0], repo.func(q)), f"{len(sites)} mutation site(s), all under option {opt}" if sites else "no mutation site on any call path")
+    # the two options under which modification is allowed are off unless asked for, at every level of the call chain
+    for opt in sorted(set(OPTION_EXEMPT.values())):
+        for q, fn_ in repo.all_functions():
+            a_ = fn_.args
+            pos_ = a_.args
+            pairs_ = list(zip(pos_[len(pos_) - len(a_.defaults) :], a_.defaults)) + [(x, d) for x, d in zip(a_.kwonlyargs, a_.kw_defaults) if d is not None]
+            for x, d in pairs_:
+                if x.arg == opt:
+                    try:
+                        val = fold(d)
+                    except Exception:
+                        val = norm(d)
+                    ctx.check(val is False, "S5", f"{q}: default of {opt}", repo.loc(q.split(".")[0], fn_), "off by default", f"{q} declares {opt}={val!r} by default: a plain call (which the read-only guarantee covers) then modifies its argument")
     prot = E.taint([(q, ps) for q, ps in PUBLIC_READONLY])
     for q, S in E.sum.items():
         if q in reach:
@@ -488,6 +501,14 @@ def _key_safe(fn: ast.FunctionDef, sub: ast.Subscript, E: Effects, q: str) -> tu
         return "skip", "list index"
     base_txt = norm(sub.value)
     key_txt = norm(sl)
+    # a subscript dominated by isinstance(base, list / tuple) indexes a sequence: nothing is auto-created
+    try:
+        for g in guards_at(fn, sub):
+            t = g.test
+            if g.positive and isinstance(t, ast.Call) and dotted(t.func) == "isinstance" and len(t.args) == 2 and norm(t.args[0]) == base_txt and norm(t.args[1]) in ("list", "tuple", "(list, tuple)", "(tuple, list)"):
+                return "skip", "index into a list"
+    except AnalysisError:
+        pass
     why = _membership_dominates(fn, sub, base_txt, key_txt)
     if why:
         return "safe", why
